@@ -100,4 +100,153 @@ theorem calcMaxSize_refines [DecidableEq α] (cfg : Cfg) {b : LB α} {q : Q α} 
   refine ⟨_, _, rfl, hR, ?_⟩
   simp [Matches]
 
+
+/-- forget the `exposed` flag -/
+def Node.unexp (nd : Node α) : Node α := { nd with exposed := false }
+
+theorem Node.unexp_set (nd : Node α) : ({ nd with exposed := true } : Node α).unexp = nd.unexp := rfl
+
+theorem Node.abs_unexp (nd : Node α) : nd.unexp.abs = nd.abs := rfl
+
+theorem unexp_getElem? {ns ns' : List (Node α)} (h : ns'.map Node.unexp = ns.map Node.unexp)
+    {i : Nat} {b : Node α} (hb : ns'[i]? = some b) : ∃ a, ns[i]? = some a ∧ a.unexp = b.unexp := by
+  have h1 : (ns'.map Node.unexp)[i]? = some b.unexp := by simp [hb]
+  rw [h, List.getElem?_map] at h1
+  cases ha : ns[i]? with
+  | none => simp [ha] at h1
+  | some a => exact ⟨a, rfl, by simpa [ha] using h1⟩
+
+theorem unexp_length {ns ns' : List (Node α)} (h : ns'.map Node.unexp = ns.map Node.unexp) :
+    ns'.length = ns.length := by
+  simpa using congrArg List.length h
+
+theorem absL_unexp (ns : List (Node α)) : absL (ns.map Node.unexp) = absL ns := by
+  induction ns with
+  | nil => rfl
+  | cons nd rest ih => simp only [List.map_cons, absL_cons, ih, Node.abs_unexp]
+
+theorem absL_drop_unexp {ns ns' : List (Node α)} (h : ns'.map Node.unexp = ns.map Node.unexp) (r : Nat) :
+    absL (ns'.drop r) = absL (ns.drop r) := by
+  rw [← absL_unexp (ns'.drop r), ← absL_unexp (ns.drop r), List.map_drop, List.map_drop, h]
+
+/-- the chain invariant does not look at the `exposed` flags -/
+theorem Shape.unexp {nodes nodes' : List (Node α)} {r f w ro app} (h : Shape nodes r f w ro app)
+    (he : nodes'.map Node.unexp = nodes.map Node.unexp) : Shape nodes' r f w ro app := by
+  have hl := unexp_length he
+  refine ⟨h.r_le_f, hl ▸ h.f_le, ?_, hl ▸ h.wr, hl ▸ h.rd⟩
+  intro i nd hi
+  obtain ⟨a, ha, e⟩ := unexp_getElem? he hi
+  have e1 : a.buf = nd.buf := (congrArg Node.buf e : a.unexp.buf = nd.unexp.buf)
+  have e2 : a.off = nd.off := (congrArg Node.off e : a.unexp.off = nd.unexp.off)
+  have e3 : a.pend = nd.pend := (congrArg Node.pend e : a.unexp.pend = nd.unexp.pend)
+  have e4 : a.malloc = nd.malloc := (congrArg Node.malloc e : a.unexp.malloc = nd.unexp.malloc)
+  have e5 : a.cap = nd.cap := (congrArg Node.cap e : a.unexp.cap = nd.unexp.cap)
+  have := h.node i a ha
+  rw [e1, e2, e3, e4, e5] at this
+  exact this
+
+
+theorem Node.readable_unexp {a b : Node α} (h : a.unexp = b.unexp) : a.readable = b.readable := by
+  have h1 := congrArg Node.buf h
+  have h2 := congrArg Node.off h
+  simp only [Node.unexp] at h1 h2
+  simp [Node.readable, h1, h2]
+
+theorem Node.len_readable_nil (nd : Node α) (h : ¬ nd.len > 0) : nd.readable = [] := by
+  apply List.eq_nil_of_length_eq_zero
+  rw [Node.readable_length]; omega
+
+theorem getBytesLoop_spec (ns : List (Node α)) (cnt k : Nat) :
+    (getBytesLoop ns cnt k).2.map Node.unexp = ns.map Node.unexp ∧
+    (getBytesLoop ns cnt k).1.flatten <+: (ns.take cnt).flatMap Node.readable ∧
+    ((getBytesLoop ns cnt k).1.length < k →
+      (getBytesLoop ns cnt k).1.flatten = (ns.take cnt).flatMap Node.readable) := by
+  induction ns generalizing cnt k with
+  | nil => simp [getBytesLoop]
+  | cons nd rest ih =>
+    unfold getBytesLoop
+    by_cases hc : cnt = 0 ∨ k = 0
+    · rw [if_pos hc]
+      refine ⟨rfl, by simp, ?_⟩
+      intro h
+      have : cnt = 0 := by simp at h; omega
+      simp [this]
+    · simp only [hc, if_false]
+      obtain ⟨c, rfl⟩ : ∃ c, cnt = c + 1 := ⟨cnt - 1, by omega⟩
+      simp only [Nat.add_sub_cancel, List.take_succ_cons, List.flatMap_cons]
+      by_cases hl : nd.len > 0
+      · simp only [hl, if_true]
+        obtain ⟨i1, i2, i3⟩ := ih c (k - 1)
+        refine ⟨?_, ?_, ?_⟩
+        · simp only [List.map_cons, i1, Node.unexp_set]
+        · simp only [List.flatten_cons]
+          exact (List.prefix_append_right_inj _).2 i2
+        · intro h
+          simp only [List.flatten_cons, List.length_cons] at h ⊢
+          rw [i3 (by omega)]
+      · simp only [hl, if_false]
+        obtain ⟨i1, i2, i3⟩ := ih c k
+        rw [Node.len_readable_nil nd hl]
+        refine ⟨?_, ?_, ?_⟩
+        · simp only [List.map_cons, i1]
+        · simpa using i2
+        · intro h; simpa using i3 h
+
+theorem map_set_of_eq {β γ : Type} (g : β → γ) (l : List β) (i : Nat) (a a' : β) (h : l[i]? = some a)
+    (e : g a' = g a) : (l.set i a').map g = l.map g := by
+  apply List.ext_getElem?
+  intro j
+  simp only [List.getElem?_map, List.getElem?_set]
+  split
+  · rename_i hij; subst hij
+    split <;> simp_all
+  · rfl
+
+/-- setting `exposed` flags keeps the refinement relation -/
+theorem R.unexp {b : LB α} {q : Q α} (hR : R b q) (nodes' : List (Node α))
+    (he : nodes'.map Node.unexp = b.nodes.map Node.unexp) : R { b with nodes := nodes' } q := by
+  refine ⟨?_, hR.len, hR.mlen, fun hd => (hR.shape hd).unexp he, hR.cache, hR.flags⟩
+  show absL (nodes'.drop b.r) = q.items
+  rw [absL_drop_unexp he, ← LB.abs_eq, hR.abs]
+
+theorem getBytes_refines [DecidableEq α] (cfg : Cfg) {b : LB α} {q : Q α} (hR : R b q) (k : Nat)
+    (hC : Contract q (.getBytes k) = true) :
+    ∃ b' r, b.step cfg (.getBytes k) = some (b', r) ∧ R b' (specStep q (.getBytes k)).1 ∧
+      Matches r (specStep q (.getBytes k)).2 := by
+  obtain ⟨hd, hro, happ, _⟩ := viewContract hC
+  have hsh := hR.shape hd
+  have hfb := flushedBytes_eq hR hd happ
+  obtain ⟨hfw, hwl⟩ := hsh.wr hro
+  have hrf := hsh.r_le_f
+  have hgt : ¬ b.r > b.f := by omega
+  simp only [LB.step, specStep, LB.getBytes, hgt, if_false]
+  generalize (if k = 0 then b.f - b.r else k) = k'
+  obtain ⟨l1, l2, l3⟩ := getBytesLoop_spec (b.nodes.drop b.r) (b.f - b.r) k'
+  rcases hg : getBytesLoop (b.nodes.drop b.r) (b.f - b.r) k' with ⟨vs, suf⟩
+  rw [hg] at l1 l2 l3
+  simp only at l1 l2 l3 ⊢
+  have he : (spliceFrom b.nodes b.r suf).map Node.unexp = b.nodes.map Node.unexp := by
+    simp only [spliceFrom, List.map_append, l1]
+    rw [← List.map_append, List.take_append_drop]
+  have hpre : ((b.nodes.drop b.r).take (b.f - b.r)).flatMap Node.readable <+: q.flushedBytes := by
+    rw [hfb, show b.f + 1 - b.r = (b.f - b.r) + 1 by omega, List.take_add_one, List.flatMap_append]
+    exact List.prefix_append _ _
+  by_cases hv : vs.length < k'
+  · simp only [hv, if_true]
+    obtain ⟨fl, hfl⟩ : ∃ x, (spliceFrom b.nodes b.r suf)[b.f]? = some x :=
+      ⟨_, List.getElem?_eq_getElem (by rw [unexp_length he]; omega)⟩
+    obtain ⟨fl0, hfl0, e0⟩ := unexp_getElem? he hfl
+    rw [hfl]
+    refine ⟨_, _, rfl, ?_, ?_⟩
+    · apply hR.unexp
+      rw [map_set_of_eq Node.unexp _ b.f fl _ hfl (Node.unexp_set fl), he]
+    · show (vs ++ [fl.readable]).flatten <+: q.flushedBytes
+      rw [hfb, show b.f + 1 - b.r = (b.f - b.r) + 1 by omega, List.take_add_one, List.flatMap_append,
+        List.getElem?_drop, show b.r + (b.f - b.r) = b.f by omega, hfl0]
+      simp only [List.flatten_append, l3 hv, Option.toList_some, List.flatMap_cons, List.flatMap_nil,
+        List.flatten_cons, List.flatten_nil, List.append_nil, Node.readable_unexp e0]
+      exact List.prefix_rfl
+  · simp only [hv, if_false]
+    exact ⟨_, _, rfl, hR.unexp _ he, l2.trans hpre⟩
+
 end Netpoll.Buf
